@@ -316,4 +316,12 @@ example : isHealthyAt opWrite 60 0 300000000 { id := "x", ts := -60 } = false âˆ
 example : (get { rf := 1, zoneAware := false } [{ id := "x", tokens := [5] }, { id := "x", tokens := [5] }] [5, 5] 0 opWrite 0).toOption.map
     (fun r => r.instances.length) = some 1 := by decide
 
+-- an instance listing its tokens out of ascending order ("Tokens may not be sorted for an older version"): the ring is
+-- well formed, `GetTokens` sorts each list before merging, and the lookup is the specified one
+example : WFRing [{ id := "i1", tokens := [700, 100, 300] }, { id := "i2", tokens := [200, 400] }] âˆ§
+    getTokens [{ id := "i1", tokens := [700, 100, 300] }, { id := "i2", tokens := [200, 400] }] = [100, 200, 300, 400, 700] âˆ§
+    (get { rf := 1, zoneAware := false } [{ id := "i1", tokens := [700, 100, 300] }, { id := "i2", tokens := [200, 400] }]
+      (getTokens [{ id := "i2", tokens := [200, 400] }, { id := "i1", tokens := [700, 100, 300] }]) 0 opWrite 0).toOption.map
+        (fun r => r.instances.map (Â·.id)) = some ["i1"] := by decide
+
 end PC01
